@@ -87,7 +87,7 @@ package config
 
 //@ func getPackages(raw)
 //@   props C09 C15
-//@   maprange 3 unordered-result pkgs
+//@   maprange 5 unordered-result pkgs
 // C15: for EVERY converter the packages named by its own lines and by the global lines are loaded (the existing
 // package at the output location decides the package clause), the default ./generated location included
 //@   loop@C15 1 invariant idx > 0 ==> reached("registerConverterLines#1") && reached("registerConverterLines#2")
@@ -216,6 +216,9 @@ package config
 // per-use parse options of map|FUNC and default FUNC: optional source, generics allowed, the METHOD's context regex
 //@   at@C14,C06,C12 call ctx.Loader.GetOne#* assert arg2 != nil && arg2.Params == method.ParamsOptional && arg2.AllowTypeParams && arg2.ContextMatch == m.ArgContextRegex
 //@           && arg2.OutputPackagePath == c.OutputPackagePath && arg0 == c.Package
+// the converter type that may appear as a parameter of the custom function is the one of THIS output format (none for
+// output:format function/variables: there is no receiver to pass)
+//@   at@C14 call ctx.Loader.GetOne#* assert arg2.Converter == c.typeForMethod()
 //@   at@C14 return assert cmd == "update" && err == nil ==> m.updateParam == parse.StringValue(rest)
 //@   at@C14 return assert cmd != "update" ==> m.updateParam == old(m.updateParam)
 //@   at@C14 return assert cmd != "context" ==> forall k string :: has(m.localOpts.Context, k) == old(has(m.localOpts.Context, k))
